@@ -140,4 +140,4 @@ def body(case, M):
     M.result('null', nl)
     if comps: M.note('component_found')
     if len(comps) >= 2: M.note('two_components')
-    M.note('no_witness')
+
